@@ -317,7 +317,80 @@ def run_authz_case(w, row, v, overlay="minimal"):
         if others or tables:
             fail = {"channel": "authz", "clause": "a non-admin caller changed state other than its own account",
                     "own_pk": own, **common_part}
+    if fail is None and obs["changed"] and rq.csrf_service(row) is not None:
+        # "never after modification / only for its service / only with its cookie": a request whose CSRF
+        # token is not valid is refused – and a refused request changes nothing, whoever sends it
+        invalid = (not v["csrfPresent"] and not rq.csrf_optional(row)) or (v["csrfPresent"] and not v["csrfOk"])
+        if invalid:
+            reason = overlay.split(":", 1)[1] if overlay.startswith("csrf:") else \
+                ("missing" if not v["csrfPresent"] else "not valid")
+            fail = {"channel": "authz", "clause": "a request whose CSRF token is not valid changed persistent state",
+                    "csrf_refusal_reason": reason, **common_part}
     return obs, fail
+
+
+def csrf_refused_channel(ctx, w, table) -> Channel:
+    """fixed grid: every CSRF-guarded mutating route x every refusal reason, sent by a documented caller
+    against existing rows with valid new values"""
+    import c15_requests as rq
+    ch = Channel("csrf_refused", rule=(
+        "every mutating row that checks a CSRF token x the documented caller (media / admin session and token) x "
+        "refusal reason: token with one character changed, genuine unused token of another service, genuine "
+        "unused token issued against another cookie, empty string, no token, and a replay (the same valid token "
+        "a second time, no restore); body = valid new values for an existing object; oracle: the database and "
+        "blob fingerprint is the same before and after the refused request; non-trivial = every case"))
+    allowed_vec = {"media": rq.vec(session="media", token="media"), "admin": rq.vec(session="admin", token="admin"),
+                   "self": rq.vec(session="user", token="user", target="user")}
+    for row in table["rows"]:
+        svc = rq.csrf_service(row)
+        if not row["mutates"] or svc is None or row["kind"] not in allowed_vec:
+            continue
+        base = allowed_vec[row["kind"]]
+        for ov in rq.CSRF_REFUSALS:
+            present = ov != "csrf:missing"
+            v = rq.normalise(w, row, dict(base, csrfPresent=present, csrfOk=False))
+            if v is None:
+                continue
+            ch.evaluations += 1
+            try:
+                obs, fail = run_authz_case(w, row, v, ov)
+            except Exception as e:   # noqa: BLE001
+                ch.errors.append(f"{row['route']} {row['method']} {ov}: {type(e).__name__}: {e}")
+                continue
+            ch.nontrivial.add((row["route"], row["method"], ov))
+            ch.count(f"{ov[5:]}|{'changed' if obs['changed'] else 'unchanged'}|status {obs['status'] // 100}xx")
+            if fail:
+                ch.oracle_failures.append(fail)
+            elif obs["changed"] and not (ov == "csrf:missing" and rq.csrf_optional(row)):
+                ch.oracle_failures.append({"channel": "csrf_refused", "clause": "a request whose CSRF token is not "
+                                           "valid changed persistent state", "csrf_refusal_reason": ov[5:],
+                                           "case": case_json(row, v, ov), "changed": obs["changed"],
+                                           "status": obs["status"], "request": obs["request"]})
+            ch.sample({"row": [row["route"], row["method"]], "reason": ov[5:], "status": obs["status"],
+                       "changed": obs["changed"]}, limit=3)
+        # replay: the valid token once (state changes), then the identical request again without restore
+        v = rq.normalise(w, row, dict(base, csrfPresent=True, csrfOk=True))
+        if v is None:
+            continue
+        ch.evaluations += 1
+        try:
+            first = rq.execute(w, row, v)
+            before = (w.db_fingerprint(), w.blob_listing())
+            second = rq.execute(w, row, v, restore=False)
+            after = (w.db_fingerprint(), w.blob_listing())
+        except Exception as e:   # noqa: BLE001
+            ch.errors.append(f"{row['route']} {row['method']} replay: {type(e).__name__}: {e}")
+            continue
+        ch.nontrivial.add((row["route"], row["method"], "replay"))
+        ch.count(f"replay|first {'changed' if first['changed'] else 'unchanged'}|second "
+                 f"{'changed' if after != before else 'unchanged'}")
+        if first["changed"] and after != before:
+            ch.oracle_failures.append({"channel": "csrf_refused", "clause": "a token was accepted twice",
+                                       "history": {"route": row["route"], "method": row["method"],
+                                                   "first": rq.veckey(v), "then": rq.veckey(v), "repeat": 1},
+                                       "status": [first["status"], second["status"]], "request": second["request"]})
+    w.restore()
+    return ch
 
 
 def authz_channel(ctx, w, table) -> Channel:
@@ -1155,6 +1228,7 @@ def channels(ctx):
     yield identity_channel(ctx, w, table)
     yield authz_channel(ctx, w, table)
     yield history_channel(ctx, w, table)
+    yield csrf_refused_channel(ctx, w, table)
     yield csrf_channel(ctx, w, table)
     w.restore()
     yield csrf_http_channel(ctx, w, table)
